@@ -390,6 +390,32 @@ def rule_anchor(ctx, ts, px):
                            "reaches the entry from every page; a bare '#<id>' (or the URL without prefix) dangles on the pages of nested namespaces, which carry "
                            "only the anchors of their own subtree", None)
     ctx.floor(R + ":links", nlink, 1)
+    # the depth prefix is added where the link is printed - by the templates.  Python code that calls the url filter to build markup of
+    # its own hands out the bare `../<page>/#id`, which is right on the root page only
+    callers = []
+    for g in px.all_funcs:
+        if g.module is m and g is not url:
+            for c_ in ast.walk(g.node):
+                if isinstance(c_, ast.Call) and isinstance(c_.func, ast.Name) and c_.func.id == url.name:
+                    callers.append((g, c_))
+    ctx.ob(R, m.rel, "filter_url_from_type is used through the templates only (which add one '../' per namespace level of the page)", not callers,
+           "" if not callers else f"{callers[0][0].short} builds a link from it without the page-depth prefix: on the page of a nested namespace the link "
+           "resolves below that page's folder, to a page that is never generated", callers[0][1].lineno if callers else url.node.lineno)
+    # the page a link names holds the entry: a link to the root namespace's page relies on that page listing the whole tree; a link to
+    # the page of the type's own namespace relies on every namespace page listing its types - a page that is only written in full
+    # for the root namespace leaves those anchors undefined
+    nst = ts.get("html", "Namespace.j2")
+    root_only = []
+    for node, stack in j2front.walk(nst.ast, (), N):
+        if isinstance(node, N.Call) and isinstance(node.node, N.Name) and node.node.name in ("generate_namespace_info", "generate_type_info", "generate_sidebar"):
+            for e_, pol_ in j2front.facts(stack):
+                if "get_root_namespace" in e_ or "T.parent" in e_ or "get_parent" in e_:
+                    root_only.append((e_, pol_, node.lineno))
+    page_is_root = bool(url_alts) and all("root_namespace" in a_.split("#")[0] for _c, a_ in url_alts)
+    ok_pg = page_is_root or not root_only
+    ctx.ob(R, m.rel, "the page named by filter_url_from_type lists the entry the link points to", ok_pg,
+           "" if ok_pg else f"links name the page `{url_alts[0][1].split('#')[0]}` of a nested namespace, but Namespace.j2 writes the entries only under "
+           f"`{root_only[0][0]}` (template line {root_only[0][2]}): on the other pages the anchor does not exist", url.node.lineno)
     # in-page references vs ids
     ids = set()
     refs = []
